@@ -5,6 +5,7 @@ package main
 // (mode=long) or with a fresh engine + persister per request (mode=pers, memory store).
 
 import (
+	"os"
 	"bytes"
 	"context"
 	"fmt"
@@ -14,6 +15,7 @@ import (
 
 	"git.defalsify.org/vise.git/cache"
 	"git.defalsify.org/vise.git/db"
+	fsdb "git.defalsify.org/vise.git/db/fs"
 	memdb "git.defalsify.org/vise.git/db/mem"
 	"git.defalsify.org/vise.git/engine"
 	"git.defalsify.org/vise.git/lang"
@@ -58,6 +60,7 @@ type eCase struct {
 	firsts  []extRule
 	langof  map[string]string
 	inputs  [][]byte
+	res     string // "" = the recording resource; "db" / "dbfs" = the library's DbResource over a mem / fs store
 }
 
 func optLangS(l *string) string {
@@ -93,6 +96,9 @@ func (c *eCase) String() string {
 	var f []string
 	f = append(f, "mode="+c.mode, fmt.Sprintf("out=%d", c.out), fmt.Sprintf("cache=%d", c.cache), fmt.Sprintf("flags=%d", c.flags),
 		"root="+hx([]byte(c.root)), "lang="+hx([]byte(c.lang)), "sep="+hx([]byte(c.sep)), "roe="+b01(c.roe), "wf="+b01(c.wf))
+	if c.res != "" {
+		f = append(f, "res="+c.res)
+	}
 	for _, n := range c.nodeOrd {
 		f = append(f, "node="+hx([]byte(n))+":"+hx(c.nodes[n]))
 	}
@@ -193,6 +199,8 @@ func parseECase(line string) (*eCase, bool) {
 			c.roe = v == "1"
 		case "wf":
 			c.wf = v == "1"
+		case "res":
+			c.res = v
 		case "node":
 			p := strings.Split(v, ":")
 			if len(p) != 2 {
@@ -405,6 +413,105 @@ func (r *recRes) FuncFor(ctx context.Context, sym string) (resource.EntryFunc, e
 
 func (r *recRes) Close(ctx context.Context) error { return nil }
 
+// dbResourceOK: the application can be served by the library's DbResource: every handler symbol has an
+// unconditional rule (the function is registered once), labels never fail.
+func (c *eCase) dbResourceOK() bool {
+	if len(c.nolabel) > 0 || len(c.firsts) > 0 {
+		return false
+	}
+	def := map[string]bool{}
+	for _, r := range c.exts {
+		if r.callIdx < 0 && r.lang == nil {
+			def[r.sym] = true
+		}
+	}
+	for _, r := range c.exts {
+		if !def[r.sym] {
+			return false
+		}
+	}
+	for _, t := range append(append([]tblEntry{}, c.tpls...), c.labels...) {
+		if t.lang != nil && c.langof[*t.lang] != *t.lang {
+			return false // translations are stored under ISO codes
+		}
+	}
+	return true
+}
+
+// resStore writes the application into a store once per served history (nil for the recording resource).
+func (c *eCase) resStore() (db.Db, func()) {
+	if c.res == "" {
+		return nil, func() {}
+	}
+	ctx := context.Background()
+	var store db.Db
+	cleanup := func() {}
+	if c.res == "dbfs" {
+		dir, _ := os.MkdirTemp("", "vres-")
+		cleanup = func() { os.RemoveAll(dir) }
+		s := fsdb.NewFsDb()
+		s.Connect(ctx, dir)
+		store = s
+	} else {
+		s := memdb.NewMemDb()
+		s.Connect(ctx, "")
+		store = s
+	}
+	for _, t := range []uint8{db.DATATYPE_BIN, db.DATATYPE_TEMPLATE, db.DATATYPE_MENU, db.DATATYPE_STATICLOAD} {
+		store.SetLock(t, false)
+	}
+	put := func(typ uint8, l *string, k string, v []byte) {
+		store.SetPrefix(typ)
+		if l != nil {
+			store.SetLanguage(langObj(*l))
+		} else {
+			store.SetLanguage(nil)
+		}
+		store.Put(ctx, []byte(k), v)
+	}
+	for k, b := range c.nodes {
+		put(db.DATATYPE_BIN, nil, k, b)
+	}
+	for _, t := range c.tpls {
+		put(db.DATATYPE_TEMPLATE, t.lang, t.sym, []byte(t.text))
+	}
+	for _, t := range c.labels {
+		put(db.DATATYPE_MENU, t.lang, t.sym+"_menu", []byte(t.text))
+	}
+	store.SetLanguage(nil)
+	for _, t := range []uint8{db.DATATYPE_BIN, db.DATATYPE_TEMPLATE, db.DATATYPE_MENU, db.DATATYPE_STATICLOAD} {
+		store.SetLock(t, true)
+	}
+	return store, cleanup
+}
+
+// resourceFor builds the resource an engine of this case is served with. With res=db/dbfs the tables of the case
+// are written into a store (bytecode under BIN, templates under TEMPLATE, labels under MENU as <sym>_menu,
+// translations under their language) and served by resource.DbResource; handlers are registered as local functions.
+// rec keeps recording the handler calls either way.
+func (c *eCase) resourceFor(rec *recRes, store db.Db) resource.Resource {
+	if c.res == "" || store == nil {
+		return rec
+	}
+	rs := resource.NewDbResource(store)
+	seen := map[string]bool{}
+	for _, r := range c.exts {
+		if seen[r.sym] {
+			continue
+		}
+		seen[r.sym] = true
+		sym := r.sym
+		rs.AddLocalFunc(sym, func(ctx context.Context, nodeSym string, input []byte) (resource.Result, error) {
+			fn, err := rec.FuncFor(ctx, sym)
+			if err != nil {
+				return resource.Result{}, err
+			}
+			return fn(ctx, nodeSym, input)
+		})
+	}
+	return rs
+}
+
 func (r *recRes) firstFunc() resource.EntryFunc {
 	if len(r.c.firsts) == 0 {
 		return nil
@@ -578,7 +685,9 @@ func (c *eCase) run(mode string) []reqRec {
 		if c.cache > 0 {
 			ca = ca.WithCacheSize(uint32(c.cache))
 		}
-		en := engine.NewEngine(cfg, rs).WithState(st).WithMemory(ca)
+		rstore, rclean := c.resStore()
+		defer rclean()
+		en := engine.NewEngine(cfg, c.resourceFor(rs, rstore)).WithState(st).WithMemory(ca)
 		if f := rs.firstFunc(); f != nil {
 			en = en.WithFirst(f)
 		}
@@ -614,6 +723,8 @@ func (c *eCase) runPers(store db.Db, inputs [][]byte, ncallsp *int, before func(
 	ctx := context.Background()
 	ncalls := *ncallsp
 	defer func() { *ncallsp = ncalls }()
+	rstore, rclean := c.resStore()
+	defer rclean()
 	stopped := false
 	for ii, in := range inputs {
 		if before != nil {
@@ -625,7 +736,7 @@ func (c *eCase) runPers(store db.Db, inputs [][]byte, ncallsp *int, before func(
 		}
 		rs := &recRes{c: c, ncalls: &ncalls}
 		pe := persist.NewPersister(store)
-		en := engine.NewEngine(cfg, rs).WithPersister(pe)
+		en := engine.NewEngine(cfg, c.resourceFor(rs, rstore)).WithPersister(pe)
 		if f := rs.firstFunc(); f != nil {
 			en = en.WithFirst(f)
 		}
@@ -721,6 +832,11 @@ func init() {
 				outs = append(outs, r.line(ec.mode != "long"))
 			}
 			c.Count("mode:" + ec.mode)
+			if ec.res != "" {
+				c.Count("resource:" + ec.res)
+			} else {
+				c.Count("resource:recording")
+			}
 			return strings.Join(outs, " # ")
 		},
 	}
